@@ -602,7 +602,7 @@ func ruleSameInstance(rule string) RuleFn {
 					cons := fmt.Sprintf("%s: return #%d delivers a stored instance", name, n)
 					if ok && src == "_noValue" && name == "(dig.paramSingle).Build" {
 						// must come with an error
-						if !provablyNonNil(fn, r, r.Results[1], nil) {
+						if !noValueOnlyWithError(fn, r) {
 							c.Bad(rule, cons, "_noValue is returned without an error", r, nil)
 							continue
 						}
@@ -688,7 +688,8 @@ func ruleNoEarlyExit(rule string) RuleFn {
 			if fn == nil {
 				continue
 			}
-			var loop *rangeLoop
+			var loops []*rangeLoop
+			inLoop := map[ssa.Instruction]bool{}
 			for _, l := range rangeLoops(fn) {
 				if l.over != sp.over {
 					continue
@@ -698,50 +699,58 @@ func ruleNoEarlyExit(rule string) RuleFn {
 					for _, in := range b.Instrs {
 						if k, ok := in.(*ssa.Call); ok && k.Common().IsInvoke() && k.Common().Method.Name() == sp.needCall {
 							has = true
+							inLoop[in] = true
 						}
 					}
 				}
 				if has {
-					loop = l
+					loops = append(loops, l)
 				}
 			}
 			cons := sp.fn + ": every enclosing scope contributes (" + sp.needCall + " for each store up to the root)"
-			if loop == nil {
+			if len(loops) == 0 {
 				c.BadAt(rule, cons, "no loop over "+sp.over+" containing "+sp.needCall+": only some of the enclosing scopes are consulted", c.P.Pos(fn.Pos()), nil)
 				continue
 			}
 			bad := false
-			for _, e := range loop.earlyExits() {
-				tgt := e.From.Succs[e.Succ]
-				// every return reachable from the exit target must be an error return
-				hit, path := an.PathTo(fn, nil, func(i ssa.Instruction) bool { return false }, nil)
-				_ = hit
-				_ = path
-				var offending *ssa.Return
-				seen := map[*ssa.BasicBlock]bool{}
-				stack := []*ssa.BasicBlock{tgt}
-				for len(stack) > 0 {
-					b := stack[len(stack)-1]
-					stack = stack[:len(stack)-1]
-					if seen[b] || loop.body[b] || b == loop.header {
-						continue
-					}
-					seen[b] = true
-					for _, in := range b.Instrs {
-						if r, ok := in.(*ssa.Return); ok && !isErrorExit(r) {
-							offending = r
-						}
-					}
-					stack = append(stack, b.Succs...)
-				}
-				// leaving the loop into code that continues normally
-				if offending != nil || reachesNormalContinuation(tgt, loop) {
+			// every use of the accessor sits in such a loop
+			an.Instrs(fn, func(in ssa.Instruction) {
+				if k, ok := in.(*ssa.Call); ok && k.Common().IsInvoke() && k.Common().Method.Name() == sp.needCall && !inLoop[in] {
 					bad = true
-					c.Bad(rule, cons, "the loop can be left early without an error (break/return inside the loop): scopes further up are skipped and their members are lost", e.From.Instrs[len(e.From.Instrs)-1], nil)
+					c.Bad(rule, cons, sp.needCall+" is also used outside a loop over "+sp.over+": that path consults only some of the enclosing scopes", in, nil)
+				}
+			})
+			var loop *rangeLoop
+			for _, loop = range loops {
+				for _, e := range loop.earlyExits() {
+					tgt := e.From.Succs[e.Succ]
+					// every return reachable from the exit target must be an error return
+					var offending *ssa.Return
+					seen := map[*ssa.BasicBlock]bool{}
+					stack := []*ssa.BasicBlock{tgt}
+					for len(stack) > 0 {
+						b := stack[len(stack)-1]
+						stack = stack[:len(stack)-1]
+						if seen[b] || loop.body[b] || b == loop.header {
+							continue
+						}
+						seen[b] = true
+						for _, in := range b.Instrs {
+							if r, ok := in.(*ssa.Return); ok && !isErrorExit(r) {
+								offending = r
+							}
+						}
+						stack = append(stack, b.Succs...)
+					}
+					// leaving the loop into code that continues normally
+					if offending != nil || reachesNormalContinuation(tgt, loop) {
+						bad = true
+						c.Bad(rule, cons, "the loop can be left early without an error (break/return inside the loop): scopes further up are skipped and their members are lost", e.From.Instrs[len(e.From.Instrs)-1], nil)
+					}
 				}
 			}
 			if !bad {
-				c.OK(rule, cons, fmt.Sprintf("loop over %s has only the exhausted-range exit and error returns", sp.over), loop.header.Instrs[0])
+				c.OK(rule, cons, fmt.Sprintf("%d loop(s) over %s: only the exhausted-range exit and error returns", len(loops), sp.over), loop.header.Instrs[0])
 			}
 			// inner provider loop in callGroupProviders
 			if sp.needCall == "getGroupProviders" {
@@ -924,4 +933,34 @@ func ruleMissingPredicate(rule string) RuleFn {
 			c.Check(okCall, rule, "shallowCheckDependencies checks its own parameter list in its own view", "findMissingDependencies(c, pl.Params...)", "different list or view", nil, nil)
 		}
 	}
+}
+
+// noValueOnlyWithError: no path reaches return r with result #0 = _noValue and
+// result #1 = nil. Decided path-sensitively when the operands are merged
+// values (a helper with several returns that was unwrapped), otherwise by the
+// dominating non-nil test.
+func noValueOnlyWithError(fn *ssa.Function, r *ssa.Return) bool {
+	_, p0 := an.Resolve(r.Results[0]).(*ssa.Phi)
+	_, p1 := an.Resolve(r.Results[1]).(*ssa.Phi)
+	if !p0 && !p1 {
+		return provablyNonNil(fn, r, r.Results[1], nil)
+	}
+	res := an.PathSens(an.PSQuery{Fn: fn, Target: func(i ssa.Instruction, env *an.PEnv) bool {
+		if i != ssa.Instruction(r) {
+			return false
+		}
+		v := an.Resolve(env.Val(r.Results[0]))
+		if !isNoValue(v) {
+			return false
+		}
+		e := an.Resolve(env.Val(r.Results[1]))
+		if _, ok := e.(*ssa.MakeInterface); ok {
+			return false
+		}
+		if k, ok := e.(*ssa.Const); ok && k.IsNil() {
+			return true
+		}
+		return !provablyNonNil(fn, r, e, nil)
+	}})
+	return res.Found == nil && !res.Overflow
 }
